@@ -39,7 +39,7 @@ fn strip_recipients(e: &Envelope) -> Envelope {
 pub fn run(ctx: &mut Ctx) {
     let pool = recipient_pool(4);
     let signers = key_pool(1, false);
-    let total = ctx.n(16_000, 300_000);
+    let total = ctx.n(16_000, 2_000_000);
     for case in ctx.cases(total) {
         ctx.begin_case(case);
         let mut rng = ctx.rng(case);
